@@ -21,10 +21,18 @@ type fragReader struct {
 	failAt int // -1 = never
 	rng    *rand.Rand
 	frag   bool
+	ferr   error // the error delivered at failAt (default errInjected)
 }
+
+// reader failures whose error merely WRAPS io.EOF / io.ErrUnexpectedEOF are failures, not a clean end of stream
+var errInjectedEOF = fmt.Errorf("injected: connection lost: %w", io.EOF)
+var errInjectedUEOF = fmt.Errorf("injected: connection lost: %w", io.ErrUnexpectedEOF)
 
 func (f *fragReader) Read(p []byte) (int, error) {
 	if f.failAt >= 0 && f.pos >= f.failAt {
+		if f.ferr != nil {
+			return 0, f.ferr
+		}
 		return 0, errInjected
 	}
 	if f.pos >= len(f.data) {
@@ -143,8 +151,13 @@ func mkReaders(n int, lens []int, seed uint64, ft fault, frag bool, content func
 			continue
 		}
 		fr := &fragReader{data: content(i), failAt: -1, rng: rand.New(rand.NewSource(int64(seed) + int64(i)*7919)), frag: frag}
-		if ft.kind == "r" && ft.idx == i {
+		if (ft.kind == "r" || ft.kind == "rw" || ft.kind == "ru") && ft.idx == i {
 			fr.failAt = ft.at
+			if ft.kind == "rw" {
+				fr.ferr = errInjectedEOF
+			} else if ft.kind == "ru" {
+				fr.ferr = errInjectedUEOF
+			}
 		}
 		rds[i] = fr
 	}
